@@ -12,6 +12,10 @@ from . import c09
 BOTH = ('uamiv', 'temperature', 'height_pressure', 'humidity', 'vertical_diffusivity', 'wind', 'one3d')
 
 
+LONG = (8784, 8790)
+LONGFMT = ('humidity', 'vertical_diffusivity', 'one3d', 'temperature', 'height_pressure')
+
+
 class Prop(c09.Prop):
     ID = 'C13'
     HORIZON = 5.0
@@ -29,11 +33,19 @@ class Prop(c09.Prop):
     ]
 
     def bounds(self, tier):
-        return {f: len(camx_u.descs(f, tier)) for f in BOTH}
+        b = {f: len(camx_u.descs(f, tier)) for f in BOTH}
+        b['long_files'] = 'hourly files of %s steps (more than a leap year) for %s' % (LONG, ', '.join(LONGFMT))
+        return b
 
     def groups(self, tier):
         for fmt in BOTH:
             for d in camx_u.descs(fmt, tier):
+                yield d
+        # hourly files longer than a (leap) year
+        for fmt in LONGFMT:
+            for n in LONG:
+                d = camx_u.base_desc(fmt)
+                d.update(nsteps=n, shape=[2, 1, 1], name=0, spc=0)
                 yield d
 
     def timeout_sig(self, d):
